@@ -151,7 +151,18 @@ use std::fmt::{Debug, Display};
 use std::ops::{Add, Div, Mul, Sub};
 use std::panic::{catch_unwind, AssertUnwindSafe};
 
-fn amounts() -> Vec<AmountT> { vec![Amnt!(1), Amnt!(17.4), Amnt!(-2.5), Amnt!(0.001), Amnt!(0), -Amnt!(0.0)] }
+#[cfg(not(dec))]
+fn amounts() -> Vec<AmountT> {
+    // ordinary amounts, both zeros, and the edges of the binary format (largest, near-largest, smallest normal, subnormal,
+    // below EPSILON, 2^53 + 1, non-finite): code that differs between configurations tends to differ there
+    vec![Amnt!(1), Amnt!(17.4), Amnt!(-2.5), Amnt!(0.001), Amnt!(0), -Amnt!(0.0), Amnt!(1.5e300), Amnt!(-1.7976931348623157e308),
+         Amnt!(2.2250738585072014e-308), Amnt!(5e-324), Amnt!(1e-17), Amnt!(9007199254740993.0), f64::INFINITY, f64::NAN]
+}
+#[cfg(dec)]
+fn amounts() -> Vec<AmountT> {
+    vec![Amnt!(1), Amnt!(17.4), Amnt!(-2.5), Amnt!(0.001), Amnt!(0), -Amnt!(0.0), Amnt!(0.000000000000000001), Amnt!(99999999999999999),
+         Amnt!(0.123456789012345678), Amnt!(-12345678901.123456789)]
+}
 
 /// one corpus line; an operation that panics (Decimal overflow) is part of the observable behaviour too
 fn line(f: impl FnOnce() -> String) {
@@ -250,6 +261,20 @@ def corpus_source(model, table):
     return "\n".join(lines) + "\n"
 
 
+def build_downstream(extra):
+    """cargo check of the workspace's own downstream crate (astronomical-quantities: it defines quantities with the
+    macro and depends on nothing but `quantities` and `qty-macros`) with additional features of the main crate enabled
+    through the dependency; returns (ok, command line, log tail)"""
+    env = common.env_offline()
+    env["CARGO_TARGET_DIR"] = os.path.join(BUILD, "c19", "downstream")
+    cmd = ["cargo", "check", "--offline", "--manifest-path", REPO + "/Cargo.toml", "-p", "astronomical-quantities", "--lib"]
+    if extra:
+        cmd += ["--features", ",".join("quantities/" + f for f in extra)]
+    p = subprocess.run(cmd, stdout=subprocess.PIPE, stderr=subprocess.PIPE, text=True, env=env)
+    errs = [l for l in p.stderr.splitlines() if l.startswith("error")]
+    return p.returncode == 0, " ".join(cmd[:2] + cmd[5:]), ("\n".join(errs[:4]) or p.stderr[-800:])
+
+
 # ---------------------------------------------------------------------------
 def run(prop, tier, seed, t0):
     model = catalogue.generate(BUILD)
@@ -337,6 +362,22 @@ def run(prop, tier, seed, t0):
                           r["log"][-500:], "the crate compiles", r["cmd"])
             if len(samples) < 3 and r["set"]:
                 samples.append({"features": r["set"], "variant": r["variant"], "built": r["build"], "probe_operators": r.get("n_ops")})
+    # a crate that builds on this one keeps building when more features of this one are enabled (cargo unifies features
+    # across the dependency graph): the workspace's astronomical crate, alone and with each additive feature of the main
+    # crate that it builds with on its own.  (`fpdec` is not additive for it: its scale literals exceed 18 fractional
+    # digits, so it never built with the decimal back-end.)
+    base_ok, base_cmd, base_log = build_downstream([])
+    stats["downstream_builds"] = 1
+    if not base_ok:
+        violation("C19/downstream-crate-does-not-build", {"crate": "astronomical-quantities", "extra": []}, base_log[-500:], "the crate compiles", base_cmd)
+    else:
+        extras = [["serde"], ["std"], ["serde", "std"]] + ([[f] for f in qf] + [["doc"], ["doc", "serde"]] if tier == "thorough" else [["doc", "serde"]])
+        for extra in extras:
+            ok, cmdline, log = build_downstream(extra)
+            stats["downstream_builds"] += 1
+            if not ok:
+                violation("C19/enabling-features-breaks-downstream-crate/%s" % "+".join(extra), {"crate": "astronomical-quantities", "extra": extra},
+                          log[-500:], "still compiles, as it does without the additional features", cmdline)
     # corpus: each feature's section in its minimal configuration vs the same section in the full configuration
     corpus = corpus_source(model, table)
     backends = [(True, False, False)] + ([(True, True, False)] if tier == "thorough" else [])
@@ -345,7 +386,7 @@ def run(prop, tier, seed, t0):
         okf, rlibf, depsf, logf = build_config(all_set, v)
         if not okf:
             continue
-        cfg_all = ['feature="%s"' % f for f in qf]
+        cfg_all = ['feature="%s"' % f for f in qf] + (["dec"] if v[1] else [])
         okb, blog = rustc_probe(corpus, rlibf, depsf, wd, "corpus_full", as_bin=True, cfgs=cfg_all)
         if not okb:
             raise Machinery("corpus does not compile in the full configuration [%s]: %s" % (vname(v), blog))
@@ -355,7 +396,7 @@ def run(prop, tier, seed, t0):
             ok, rlib, deps, log = build_config(cl, v)
             if not ok:
                 continue
-            okb, blog = rustc_probe(corpus, rlib, deps, wd, "corpus_min", as_bin=True, cfgs=['feature="%s"' % x for x in sorted(cl)])
+            okb, blog = rustc_probe(corpus, rlib, deps, wd, "corpus_min", as_bin=True, cfgs=['feature="%s"' % x for x in sorted(cl)] + (["dec"] if v[1] else []))
             if not okb:
                 violation("C19/corpus-does-not-compile/%s" % f, {"feature": f, "variant": vname(v)}, blog[-500:], "the corpus section of the feature compiles in its minimal configuration", "rustc corpus")
                 continue
@@ -385,7 +426,7 @@ def run(prop, tier, seed, t0):
             if not ok:
                 continue
             wdo = os.path.join(BUILD, "gen", "c19-corpus-" + vname(other))
-            okb, blog = rustc_probe(corpus, rlib, deps, wdo, "corpus_variant", as_bin=True, cfgs=['feature="%s"' % f for f in qf])
+            okb, blog = rustc_probe(corpus, rlib, deps, wdo, "corpus_variant", as_bin=True, cfgs=['feature="%s"' % f for f in qf] + (["dec"] if other[1] else []))
             if not okb:
                 violation("C19/corpus-does-not-compile/%s" % vname(other), {"variant": vname(other)}, blog[-500:], "the corpus compiles in every variant", "rustc corpus")
                 continue
